@@ -107,7 +107,6 @@ def operand_order(b, l, r):
 
 
 def short_fn(b):
-    from ..facts import fn_key
     return fn_key(b.path)
 
 
